@@ -187,6 +187,7 @@ fn check_unobservable(base: &Scen) -> Report {
     dynq.qrank = QRank::Dyn;
     let mut two = base.clone();
     two.qshape = vec![1, k];
+    two.lay_q = Layout::C; // the logical contents are the same; a reversed 1 x k layout would also reverse the unit axis
     let v = crate::c09::sym_vals(base, true, true);
     let mut ecfg = ExploreCfg::new(Mode::O, base.nx().max(base.ny()).max(2) - 1);
     ecfg.timeout_ms = 20_000;
@@ -218,6 +219,9 @@ fn check_unobservable(base: &Scen) -> Report {
     let axes = base.axes();
     let mut n_ok = 0;
     for (pi, p) in paths.iter().enumerate() {
+        if chk.rep.findings.iter().any(|f| f.reproduced == Some(true)) {
+            break;
+        }
         let pcs = chk.pc(&p.pc);
         let rows = match &p.result {
             Ok(r) => r,
@@ -253,6 +257,9 @@ fn check_unobservable(base: &Scen) -> Report {
                             }
                             let mut q = pcs.clone();
                             q.push(format!("(not (= {} {}))", chk.term(a.values[i]), chk.term(b.values[i])));
+                            if chk.rep.findings.iter().any(|f| f.reproduced == Some(true)) {
+                                break;
+                            }
                             if let Verdict::Cex(_) = chk.must_unsat("fast=general", &format!("path {pi} element {i}"), &q, &[]) {
                                 let nv = entry::native_vals(base, 5);
                                 let s2 = if alt % 3 == 1 { &dynq } else { &two };
@@ -309,6 +316,9 @@ pub fn run(args: &Args) -> Report {
     if args.thorough() {
         scens.extend([mk(Kind::Linear, vec![3, 1, 2], false, 3, false), mk(Kind::Bilinear, vec![2, 3, 2], false, 2, false), mk(Kind::Spline(crate::spline::Bc::Natural), vec![4, 2], true, 2, true)]);
     }
+    // the same with the query stored reversed / strided: the fast path must still agree with the general path
+    let with_layouts: Vec<Scen> = scens.iter().filter(|s| s.qshape[0] >= 2).flat_map(|s| [Layout::Reversed, Layout::Strided].into_iter().map(move |l| { let mut t = s.clone(); t.lay_q = l; t })).collect();
+    scens.extend(with_layouts);
     items.extend(scens.into_iter().map(Item::Unobs));
     let mut rep = par_run(items, args.threads, |it| match it {
         Item::Inst(i) => run_inst(i),
